@@ -890,6 +890,13 @@ class _Run:
                 self.emit('store', _stmt_of(node), st, target=('attr', args[0], args[1][1]),
                           base=args[0], value=args[2], note='setattr')
                 return NONE
+            if q == 'builtins.setattr' and len(args) == 3:
+                self.emit('store', _stmt_of(node), st, target=('attr', args[0], '*'),
+                          base=args[0], value=args[2], note='setattr-dynamic')
+                return NONE
+            if q == 'builtins.delattr' and len(args) == 2:
+                self.emit('del', _stmt_of(node), st, target=('attr', args[0], '*'), base=args[0])
+                return NONE
             if q == 'builtins.super' and not args and self.func.cls is not None:
                 return ('super', self.func.cls.qname, st.env.get('self', ('p', 'self')))
             if q in self.p.funcs:
